@@ -21,6 +21,9 @@ def main():
     name = sys.argv[1]
     d = '%s/seeded/%s' % (V, name)
     pids = sys.argv[2:] or [name.split('-')[0]]
+    rc, out = sh(['pgrep', '-f', 'runall.sh|check.py'])
+    others = [l for l in out.split() if l.strip() and int(l) != os.getpid()]
+    assert not others, 'another check is running against /repo (pids %s): wait for it' % others
     rc, out = sh(['git', '-C', '/repo', 'status', '--porcelain'])
     assert out.strip() == '', '/repo is not clean: ' + out
     rc, out = sh(['git', '-C', '/repo', 'apply', d + '/patch.diff'])
